@@ -416,8 +416,94 @@ def _vec_filled_only_from(P, fn, vec_local, eff_pred):
     return True, "%d push site(s), all of segment-writer results" % pushes
 
 
+def r01h(ctx, P):
+    rid = "R01.h"
+    import re
+    ctx.rule(rid, "EXPLICIT FLUSH (no write error is swallowed by a destructor): every std::io::BufWriter / LineWriter created in the "
+                  "non-test core is a local of a function that calls flush() (or into_inner()) on it with the result propagated, at a "
+                  "site dominating every success return; a buffered writer stored in a struct (its tail would go out in Drop, which "
+                  "discards the I/O error, so the following sync_all succeeds on a short file) is accepted only if the struct has a "
+                  "method that flushes that field with the result propagated and every function constructing the struct calls it "
+                  "before each of its success returns")
+    n = 0
+    CTOR = re.compile(r"std::io::(buffered::)?(bufwriter::)?BufWriter::<W>::(new|with_capacity)$|std::io::(buffered::)?(linewriter::)?LineWriter::<W>::(new|with_capacity)$")
+    FLUSH = ("as std::io::Write>::flush", "BufWriter::<W>::into_inner", "BufWriter::<W>::into_parts", "LineWriter::<W>::into_inner")
+
+    def flushes_propagated(g, recv_pred):
+        """sites in g that flush something satisfying recv_pred and whose Result is not discarded"""
+        from sa.rules.C03 import disposition
+        out = []
+        gs = Slice(g, through_all_calls=True)
+        for b, t in g.calls():
+            if callee_of(t).endswith(FLUSH) and t["args"] and recv_pred(g, gs, t["args"][0]):
+                d = disposition(g, b, t)
+                if d not in ("discarded",) and "discard" not in str(d):
+                    out.append(Site(g, b))
+        return out
+    for q, f in sorted(P.fns.items()):
+        if f.crate != "searchlite_core" or is_test_or_bench(f):
+            continue
+        for b, t in f.calls():
+            if not CTOR.search(callee_of(t)):
+                continue
+            n += 1
+            ctx.saw(f)
+            w = t["dst"]["l"]
+            # does the writer escape into an aggregate (struct literal / return value)?
+            escapes = None
+            for b2, i2, st in f.stmts():
+                if st["k"] == "assign" and st["rv"]["k"] == "agg" and st["rv"].get("ak") == "adt":
+                    for o in st["rv"]["ops"]:
+                        if op_local(o) is not None and w in (Slice(f).locals(o) | {op_local(o)}):
+                            escapes = (st["rv"].get("adt"), Site(f, b2, i2))
+            ok = False
+            why = ""
+            if escapes is None:
+                fl = flushes_propagated(f, lambda g, gs, o: w in (gs.locals(o) | {op_local(o)}))
+                oks = ok_sites(f) or [Site(f, rb) for rb in f.reachable() if f.blocks[rb]["term"]["k"] == "return"]
+                ok = bool(fl) and all(any(f.dominates(x, o) for x in fl) for o in oks)
+                why = "is dropped on a success path without an explicit flush() whose error is propagated"
+            else:
+                adt_path, where = escapes
+                adt = P.adts.get(adt_path)
+                fname = None
+                if adt:
+                    names = [x[0] for x in adt["variants"][0]["fields"]]
+                    st = f.blocks[where.b]["stmts"][where.i]
+                    for k_, o in enumerate(st["rv"]["ops"]):
+                        if op_local(o) is not None and w in (Slice(f).locals(o) | {op_local(o)}) and k_ < len(names):
+                            fname = names[k_]
+                finishers = []
+                if fname:
+                    for q2, g in P.fns.items():
+                        if g.crate == "searchlite_core" and not is_test_or_bench(g) and g.arg_count >= 1 and adt_path.rsplit("::", 1)[-1] in g.arg_ty(1):
+                            if flushes_propagated(g, lambda g_, gs, o, fname=fname: fname in gs.fields(o)):
+                                finishers.append(q2)
+                users_ok = bool(finishers)
+                if finishers:
+                    for q3, h in P.fns.items():
+                        if h.crate != "searchlite_core" or is_test_or_bench(h):
+                            continue
+                        cons = [Site(h, hb) for hb, ht in h.calls() if callee_of(ht) == q]
+                        if not cons:
+                            continue
+                        fins = [Site(h, hb) for hb, ht in h.calls() if callee_of(ht) in finishers]
+                        oks = ok_sites(h)
+                        if not (fins and all(any(h.dominates(x, o) for x in fins) for o in oks)):
+                            users_ok = False
+                ok = users_ok
+                why = "is stored in %s.%s and goes out in Drop (no finishing method that flushes it with the error propagated is called by every constructor's caller)" % (
+                    adt_path.rsplit("::", 1)[-1], fname or "?")
+            ctx.ob(rid, "%s:%s:buffered-writer-flushed" % (rid, f.short), ok,
+                   "the buffered writer created at %s is flushed explicitly before every success return" % Site(f, b).loc() if ok else
+                   "the buffered writer created at %s %s: a failed write of the buffered tail is discarded by the destructor, the file "
+                   "stays short, sync_all succeeds and the commit is acknowledged without its data" % (Site(f, b).loc(), why), Site(f, b).loc())
+    ctx.floor(rid, n, 2, "buffered writers created in the core write path (segment meta, fast fields)")
+
+
 def run(ctx, progs):
     P = progs.get("default")
+    r01h(ctx, P)
     r01a(ctx, P)
     r01b(ctx, P)
     r01c(ctx, P)
